@@ -38,26 +38,50 @@ import (
 // ---------------------------------------------------------------- openid configuration of the deployment under test
 
 type hClient struct {
+	yield  func(string)
 	cfg    *config.Config
 	method openidconfig.AuthMethod
 	key    jwk.Key
 }
 
-func (c *hClient) ACRValues() string                   { return c.cfg.OpenID.ACRValues }
-func (c *hClient) Audiences() map[string]bool          { return c.cfg.OpenID.TrustedAudiences() }
-func (c *hClient) AuthMethod() openidconfig.AuthMethod { return c.method }
-func (c *hClient) ClientID() string                    { return c.cfg.OpenID.ClientID }
-func (c *hClient) ClientJWK() jwk.Key                  { return c.key }
-func (c *hClient) ClientSecret() string                { return c.cfg.OpenID.ClientSecret }
-func (c *hClient) PostLogoutRedirectURI() string       { return c.cfg.OpenID.PostLogoutRedirectURI }
-func (c *hClient) ResourceIndicator() string           { return c.cfg.OpenID.ResourceIndicator }
+func (c *hClient) ACRValues() string { c.y("ACRValues"); return c.cfg.OpenID.ACRValues }
+func (c *hClient) Audiences() map[string]bool {
+	c.y("Audiences")
+	return c.cfg.OpenID.TrustedAudiences()
+}
+func (c *hClient) AuthMethod() openidconfig.AuthMethod { c.y("AuthMethod"); return c.method }
+func (c *hClient) ClientID() string                    { c.y("ClientID"); return c.cfg.OpenID.ClientID }
+func (c *hClient) ClientJWK() jwk.Key                  { c.y("ClientJWK"); return c.key }
+func (c *hClient) ClientSecret() string                { c.y("ClientSecret"); return c.cfg.OpenID.ClientSecret }
+func (c *hClient) PostLogoutRedirectURI() string {
+	c.y("PostLogoutRedirectURI")
+	return c.cfg.OpenID.PostLogoutRedirectURI
+}
+func (c *hClient) ResourceIndicator() string {
+	c.y("ResourceIndicator")
+	return c.cfg.OpenID.ResourceIndicator
+}
 func (c *hClient) Scopes() scopes.Scopes {
 	return scopes.DefaultScopes().WithAdditional(c.cfg.OpenID.Scopes...)
 }
-func (c *hClient) UILocales() string    { return c.cfg.OpenID.UILocales }
-func (c *hClient) WellKnownURL() string { return c.cfg.OpenID.WellKnownURL }
+func (c *hClient) UILocales() string    { c.y("UILocales"); return c.cfg.OpenID.UILocales }
+func (c *hClient) WellKnownURL() string { c.y("WellKnownURL"); return c.cfg.OpenID.WellKnownURL }
+
+// y: every configuration accessor is a point at which a driver may take control (C03: run another login attempt to
+// completion in the middle of this one's validation)
+func (c *hClient) y(name string) {
+	if c.yield != nil {
+		c.yield(name)
+	}
+}
+func (p *hProvider) y(name string) {
+	if p.yield != nil {
+		p.yield(name)
+	}
+}
 
 type hProvider struct {
+	yield        func(string)
 	issuer       string
 	par          bool
 	issParam     bool
@@ -67,26 +91,38 @@ type hProvider struct {
 	locales      openidconfig.Supported
 }
 
-func (p *hProvider) ACRValuesSupported() openidconfig.Supported       { return p.acrSupported }
-func (p *hProvider) AuthorizationEndpoint() string                    { return p.issuer + "/authorize" }
-func (p *hProvider) AuthorizationResponseIssParameterSupported() bool { return p.issParam }
+func (p *hProvider) ACRValuesSupported() openidconfig.Supported {
+	p.y("ACRValuesSupported")
+	return p.acrSupported
+}
+func (p *hProvider) AuthorizationEndpoint() string {
+	p.y("AuthorizationEndpoint")
+	return p.issuer + "/authorize"
+}
+func (p *hProvider) AuthorizationResponseIssParameterSupported() bool {
+	p.y("AuthorizationResponseIssParameterSupported")
+	return p.issParam
+}
 func (p *hProvider) EndSessionEndpointURL() url.URL {
 	u, _ := url.Parse(p.issuer + "/endsession")
 	return *u
 }
-func (p *hProvider) IDTokenSigningAlg() jwa.KeyAlgorithm { return jwa.RS256 }
-func (p *hProvider) Issuer() string                      { return p.issuer }
-func (p *hProvider) JwksURI() string                     { return p.issuer + "/jwks" }
+func (p *hProvider) IDTokenSigningAlg() jwa.KeyAlgorithm { p.y("IDTokenSigningAlg"); return jwa.RS256 }
+func (p *hProvider) Issuer() string                      { p.y("Issuer"); return p.issuer }
+func (p *hProvider) JwksURI() string                     { p.y("JwksURI"); return p.issuer + "/jwks" }
 func (p *hProvider) PushedAuthorizationRequestEndpoint() string {
 	if p.par {
 		return p.issuer + "/par"
 	}
 	return ""
 }
-func (p *hProvider) SessionStateRequired() bool                 { return p.sessionState }
-func (p *hProvider) SidClaimRequired() bool                     { return p.sidRequired }
-func (p *hProvider) TokenEndpoint() string                      { return p.issuer + "/token" }
-func (p *hProvider) UILocalesSupported() openidconfig.Supported { return p.locales }
+func (p *hProvider) SessionStateRequired() bool { p.y("SessionStateRequired"); return p.sessionState }
+func (p *hProvider) SidClaimRequired() bool     { p.y("SidClaimRequired"); return p.sidRequired }
+func (p *hProvider) TokenEndpoint() string      { p.y("TokenEndpoint"); return p.issuer + "/token" }
+func (p *hProvider) UILocalesSupported() openidconfig.Supported {
+	p.y("UILocalesSupported")
+	return p.locales
+}
 
 type hOpenID struct {
 	c *hClient
